@@ -5,87 +5,88 @@ From GocqlV Require Import Lib.Base C15.Model C15.Spec C15.Proofs1 C15.Proofs2 C
 Set Implicit Arguments.
 
 Section P4.
-Variables (R Q : Type) (q : Q) (posf : nat -> Z).
+Variables (R M Q : Type) (q : Q) (posf : nat -> Z) (mm : meta_mode M) (nr : nat).
 
-Notation machT := (mach R Q).
+Notation machT := (mach R M Q).
+Notation dr := (drow R M).
 
 Notation req_of := (mk q).
 
-Lemma map_repeat' {A B} (f : A -> B) x n : map f (repeat x n) = repeat (f x) n.
-Proof. induction n; cbn; congruence. Qed.
+Lemma map_repeat' {A B} (f : A -> B) x k : map f (repeat x k) = repeat (f x) k.
+Proof. clear. induction k; cbn; congruence. Qed.
 
-Lemma calls_ext (f g : machT -> option R * machT) : (forall m, f m = g m) ->
+Lemma calls_ext (f g : machT -> option dr * machT) : (forall m, f m = g m) ->
   forall k m, calls f k m = calls g k m.
 Proof.
   intros E. induction k as [|k IH]; intro m; cbn [calls]; [reflexivity|].
   rewrite E. destruct (g m) as [o m1]. rewrite IH. reflexivity.
 Qed.
 
-Definition outs_spec (rows : list R) (k : nat) : list (option R) :=
+Definition outs_spec (rows : list dr) (k : nat) : list (option dr) :=
   map Some (firstn k rows) ++ repeat None (k - length rows).
 
 (* ---- the per-call consumers, no prefetch running ---------------------------------------------- *)
-Lemma consumer_calls auto (call : machT -> option R * machT) pre ps (s : list (reply R)) k :
-  (forall m, call m = scanp q auto posf pre m) ->
-  let r := calls call k (open q auto posf ps s) in
-  fst r = outs_spec (spec_rows auto s) k
-  /\ (exists tl, map req_of (spec_states auto ps s) = m_reqs (snd r) ++ tl)
-  /\ ((length (spec_rows auto s) < k)%nat ->
-      close (snd r) = spec_end auto s /\ m_reqs (snd r) = map req_of (spec_states auto ps s)).
+Lemma consumer_calls auto (call : machT -> option dr * machT) pre ps (s : list (reply R M)) k :
+  (forall m, call m = scanp q auto posf mm nr pre m) ->
+  let r := calls call k (open q auto posf mm nr ps s) in
+  fst r = outs_spec (spec_rows auto mm nr nr s) k
+  /\ (exists tl, map req_of (spec_states auto nr nr ps s) = m_reqs (snd r) ++ tl)
+  /\ ((length (spec_rows auto mm nr nr s) < k)%nat ->
+      close (snd r) = spec_end auto nr nr s /\ m_reqs (snd r) = map req_of (spec_states auto nr nr ps s)).
 Proof.
   intros E r. unfold r. rewrite (calls_ext _ _ E).
-  destruct (calls (scanp q auto posf pre) k (open q auto posf ps s)) as [outs m'] eqn:H.
-  exact (calls_open _ _ _ _ _ _ _ H).
+  destruct (calls (scanp q auto posf mm nr pre) k (open q auto posf mm nr ps s)) as [outs m'] eqn:H.
+  exact (calls_open _ _ _ _ _ _ _ _ _ H).
 Qed.
 
 (* ---- every schedule --------------------------------------------------------------------------- *)
-Lemma fetch_reqs auto (m : machT) : exists l, m_reqs (fetch q auto posf m) = m_reqs m ++ l.
+Lemma fetch_reqs auto (m : machT) : exists l, m_reqs (fetch q auto posf mm nr m) = m_reqs m ++ l.
 Proof.
   unfold fetch. destruct (m_fetched m); [exists []; rewrite app_nil_r; reflexivity|].
   destruct (i_next (m_cur m)) as [[st np]|]; [|exists []; rewrite app_nil_r; reflexivity].
-  destruct (exec q auto posf st (m_srv m)) as [[it s'] l]. exists l. reflexivity.
+  destruct (exec q auto posf mm st nr (m_srv m)) as [[it s'] l]. exists l. reflexivity.
 Qed.
 
-Lemma async_reqs auto (m : machT) : exists l, m_reqs (async q auto posf m) = m_reqs m ++ l.
+Lemma async_reqs auto (m : machT) : exists l, m_reqs (async q auto posf mm nr m) = m_reqs m ++ l.
 Proof.
   unfold async. destruct (m_oncea m); [apply fetch_reqs|exists []; rewrite app_nil_r; reflexivity].
 Qed.
 
 (* a landed prefetch has sent requests the iteration was going to send anyway *)
 Lemma async_total auto (m : machT) : m_fetched m = None -> wf m ->
-  exists tl, total q auto m = m_reqs (async q auto posf m) ++ tl.
+  exists tl, total q auto nr m = m_reqs (async q auto posf mm nr m) ++ tl.
 Proof.
   intros Hf W. unfold async. destruct (m_oncea m) eqn:Ho; [|eexists; reflexivity].
   destruct (W Ho) as [He Hn]. unfold fetch. rewrite Hf.
   destruct (i_next (m_cur m)) as [[st np]|] eqn:En; [|congruence].
-  destruct (exec q auto posf st (m_srv m)) as [[it s'] l] eqn:E.
-  destruct (exec_spec _ _ _ _ _ E) as (_ & _ & C). cbn [m_reqs].
-  exists (map (mk q) (fut_states_i auto it s')). unfold total, fut_states, fut_states_i. rewrite He, En.
+  destruct (exec q auto posf mm st nr (m_srv m)) as [[it s'] l] eqn:E.
+  destruct (exec_spec q auto posf mm nr _ _ _ E) as (_ & _ & C). cbn [m_reqs].
+  exists (map (mk q) (fut_states_i auto nr it s')). unfold total, fut_states, fut_states_i. rewrite He, En.
   rewrite <- app_assoc. f_equal. symmetry. exact C.
 Qed.
 
-Lemma rel_wf_right auto (a b : machT) : rel q auto posf a b -> wf b.
+Lemma rel_wf_right auto (a b : machT) : rel q auto posf mm nr a b -> wf b.
 Proof.
   intros [[_ W]|(A1 & A2 & A3 & A4 & A5 & A6)]; [exact W|]. intros _. rewrite <- A3. auto.
 Qed.
 
-Lemma any_schedule auto ps (s : list (reply R)) ls :
-  let m0 := open q auto posf ps s in
-  let r := sched q auto posf m0 ls in
-  let c := calls (scan q auto posf) (ncalls ls) m0 in
-  fst r = outs_spec (spec_rows auto s) (ncalls ls)
-  /\ async q auto posf (snd r) = async q auto posf (snd c)
-  /\ (exists tl, map req_of (spec_states auto ps s) = m_reqs (snd r) ++ tl)
-  /\ ((length (spec_rows auto s) < ncalls ls)%nat ->
-      snd r = snd c /\ close (snd r) = spec_end auto s /\ m_reqs (snd r) = map req_of (spec_states auto ps s)).
+Lemma any_schedule auto ps (s : list (reply R M)) ls :
+  let m0 := open q auto posf mm nr ps s in
+  let r := sched q auto posf mm nr m0 ls in
+  let c := calls (scan q auto posf mm nr) (ncalls ls) m0 in
+  fst r = outs_spec (spec_rows auto mm nr nr s) (ncalls ls)
+  /\ async q auto posf mm nr (snd r) = async q auto posf mm nr (snd c)
+  /\ (exists tl, map req_of (spec_states auto nr nr ps s) = m_reqs (snd r) ++ tl)
+  /\ ((length (spec_rows auto mm nr nr s) < ncalls ls)%nat ->
+      snd r = snd c /\ close (snd r) = spec_end auto nr nr s /\ m_reqs (snd r) = map req_of (spec_states auto nr nr ps s)).
 Proof.
   intros m0 r c.
-  destruct (@sched_confluent R Q q auto posf ls m0 m0 (@rel_refl_open R Q q auto posf ps s)) as [S1 S2].
+  destruct (@sched_confluent R M Q q auto posf mm nr ls m0 m0 (@rel_refl_open R M Q q auto posf mm nr ps s)) as [S1 S2].
   fold m0 in S1, S2. fold r in S1, S2. fold c in S1, S2.
-  assert (Hc : c = calls (scanp q auto posf true) (ncalls ls) m0) by reflexivity.
+  assert (Hc : c = calls (scanp q auto posf mm nr true) (ncalls ls) m0) by reflexivity.
   destruct c as [outs mc] eqn:Ec. symmetry in Hc.
-  destruct (open_spec q auto posf ps s) as (O1 & _ & O3 & O4 & O5). fold m0 in O1, O3, O4, O5.
-  destruct (@calls_spec R Q q auto posf true (ncalls ls) m0 outs mc O1 Hc) as (I1 & I2 & I3 & I4 & I5 & I6).
+  destruct (open_spec q auto posf mm nr ps s) as (O1 & _ & O3 & O4 & O5). fold m0 in O1, O3, O4, O5.
+  destruct (@calls_spec R M Q q auto posf mm nr true (ncalls ls) m0 outs mc O1 Hc) as (I1 & I2 & I3 & I4 & I5 & I6).
   cbn [fst snd] in *. pose proof (rel_settle S2) as St. pose proof (rel_wf_right S2) as W.
   split; [rewrite S1, I1, O3; reflexivity|]. split; [exact St|]. split.
   - destruct (@async_total auto mc I2 W) as [tl T]. destruct (async_reqs auto (snd r)) as [l L].
@@ -102,57 +103,88 @@ Proof.
     rewrite <- O5, <- I4. unfold total. rewrite J2. cbn. rewrite app_nil_r. reflexivity.
 Qed.
 
-(* ---- manual paging ------------------------------------------------------------------------------ *)
-Lemma exec_manual : forall (s : list (reply R)) ps it s' l, exec q false posf ps s = (it, s', l) ->
+(* ---- SliceMap while the prefetch runs ---------------------------------------------------------- *)
+Lemma slice_map_any_schedule auto ps (s : list (reply R M)) fires :
+  slice_map_sched q auto posf mm nr (open q auto posf mm nr ps s) fires
+  = slice_map q auto posf mm nr (open q auto posf mm nr ps s).
+Proof.
+  set (m0 := open q auto posf mm nr ps s).
+  destruct (open_spec q auto posf mm nr ps s) as (O1 & _ & _ & _ & _). fold m0 in O1.
+  unfold slice_map_sched, slice_map. destruct (i_err (m_cur m0)); [reflexivity|].
+  pose proof (@drain_sched_rel R M Q q auto posf mm nr (S (rows_left m0)) m0 m0 fires (@rel_refl_open R M Q q auto posf mm nr ps s)) as D.
+  fold m0 in D.
+  destruct (@drain_spec R M Q q auto posf mm nr true (S (rows_left m0)) m0 O1) as (mb & Db & A & B & C & F).
+  { pose proof (@fut_rows_le R M Q auto posf mm nr m0). lia. }
+  change (scan q auto posf mm nr) with (@Proofs1.scanp R M Q q auto posf mm nr true) in *. rewrite Db in *.
+  destruct (drain_sched q auto posf mm nr (S (rows_left m0)) m0 fires) as [[la ma]|]; [|contradiction].
+  destruct D as [E Hr]. subst la.
+  assert (Em : ma = mb).
+  { pose proof (rel_wf_right Hr) as W.
+    destruct Hr as [[E _]|(A1 & A2 & A3 & _)]; [exact E|]. exfalso.
+    destruct (W A2) as [He Hn]. unfold fut_states, fut_states_i in F. rewrite He in F.
+    destruct (i_next (m_cur mb)) as [[st np]|]; [|congruence].
+    destruct (m_srv mb) as [|x t]; cbn in F; discriminate. }
+  rewrite Em. reflexivity.
+Qed.
+
+End P4.
+
+(* ---- manual paging (no retry policy) ------------------------------------------------------------ *)
+Section P4m.
+Variables (R M Q : Type) (q : Q) (posf : nat -> Z) (mm : meta_mode M).
+Notation machT := (mach R M Q).
+Notation req_of := (mk q).
+
+Lemma exec_manual : forall (s : list (reply R M)) ps it s' l, exec q false posf mm ps 0 s = (it, s', l) ->
   i_next it = None
   /\ match first_answer s with
-     | Some (RPage rows more st) => i_err it = None /\ i_ps it = (if more then st else [])
+     | Some (RPage rows more st mt) => i_err it = None /\ i_ps it = (if more then st else [])
      | _ => True
      end.
 Proof.
   induction s as [|r s IH]; intros ps it s' l H; cbn [exec] in H.
   - inversion H; subst. cbn. auto.
-  - destruct r as [rows more st|e| |].
+  - destruct r as [rows more st mt|e| |].
     + inversion H; subst. cbn. rewrite andb_false_r. auto.
     + inversion H; subst. cbn. auto.
     + inversion H; subst. cbn. auto.
-    + destruct (exec q false posf ps s) as [[it0 s0] l0] eqn:E. inversion H; subst. cbn [first_answer].
+    + destruct (exec q false posf mm ps 0 s) as [[it0 s0] l0] eqn:E. inversion H; subst. cbn [first_answer].
       exact (IH _ _ _ _ E).
 Qed.
 
-Lemma manual_any_schedule ps (s : list (reply R)) ls :
-  let r := sched q false posf (open q false posf ps s) ls in
-  fst r = outs_spec (match first_answer s with Some (RPage rows _ _) => rows | _ => [] end) (ncalls ls)
+Lemma manual_any_schedule ps (s : list (reply R M)) ls :
+  let r := sched q false posf mm 0 (open q false posf mm 0 ps s) ls in
+  fst r = outs_spec (match first_answer s with Some r => fin_rows mm r | None => [] end) (ncalls ls)
   /\ m_reqs (snd r) = repeat (req_of ps) (S (unpreps s))
-  /\ (forall rows more st, first_answer s = Some (RPage rows more st) ->
+  /\ (forall rows more st mt, first_answer s = Some (RPage rows more st mt) ->
         page_state (snd r) = (if more then st else []) /\ close (snd r) = None)
-  /\ (forall e, first_answer s = Some (RErr R e) -> close (snd r) = Some e)
+  /\ (forall e, first_answer s = Some (RErr R M e) -> close (snd r) = Some e)
   /\ (first_answer s = None -> close (snd r) = Some E_noreply).
 Proof.
-  intro r. destruct (any_schedule false ps s ls) as (A1 & _ & _ & _). fold r in A1.
+  intro r. destruct (any_schedule q posf mm 0 false ps s ls) as (A1 & _ & _ & _). fold r in A1.
   rewrite spec_rows_manual in A1. split; [exact A1|].
-  set (m0 := open q false posf ps s) in *.
+  set (m0 := open q false posf mm 0 ps s) in *.
   assert (Hq : quiet m0 /\ m_reqs m0 = repeat (req_of ps) (S (unpreps s))
                /\ match first_answer s with
-                  | Some (RPage rows more st) => i_err (m_cur m0) = None /\ i_ps (m_cur m0) = (if more then st else [])
+                  | Some (RPage rows more st mt) => i_err (m_cur m0) = None /\ i_ps (m_cur m0) = (if more then st else [])
                   | _ => True end
-               /\ fut_end false m0 = spec_end false s).
-  { destruct (open_spec q false posf ps s) as (O1 & _ & _ & O4 & O5). fold m0 in O1, O4, O5.
-    unfold m0, open in *. destruct (exec q false posf ps s) as [[it s'] l] eqn:E. cbn in *.
+               /\ fut_end false 0 m0 = spec_end false 0 0 s).
+  { destruct (open_spec q false posf mm 0 ps s) as (O1 & _ & _ & O4 & O5). fold m0 in O1, O4, O5.
+    unfold m0, open in *. destruct (exec q false posf mm ps 0 s) as [[it s'] l] eqn:E. cbn in *.
     destruct (exec_manual _ _ E) as [N P]. split; [split; auto|]. split; [|split; [exact P|exact O4]].
     unfold total, fut_states, fut_states_i in O5. cbn in O5. rewrite N in O5.
     replace (match i_err it with Some _ => [] | None => [] end) with (@nil (list Z)) in O5 by (destruct (i_err it); reflexivity).
     cbn in O5. rewrite app_nil_r in O5. rewrite O5, spec_states_manual, map_repeat'. reflexivity. }
   destruct Hq as (Hq & Hr & Hp & He).
   destruct r as [os m'] eqn:Er. cbn [fst snd] in *.
-  destruct (@sched_quiet R Q q false posf ls m0 os m' Hq Er) as (Q1 & Q2 & Q3 & Q4).
+  destruct (@sched_quiet R M Q q false posf mm 0 ls m0 os m' Hq Er) as (Q1 & Q2 & Q3 & Q4).
   split; [congruence|]. unfold page_state, close. rewrite Q3, Q4.
-  assert (X : i_err (m_cur m0) = spec_end false s).
+  assert (X : i_err (m_cur m0) = spec_end false 0 0 s).
   { rewrite <- He. unfold fut_end, fut_end_i. destruct Hq as [Hn _]. rewrite Hn. destruct (i_err (m_cur m0)); reflexivity. }
   rewrite X, spec_end_manual. split; [|split].
-  - intros rows more st F. rewrite F in *. destruct Hp as [_ P]. auto.
+  - intros rows more st mt F. rewrite F in *. destruct Hp as [_ P]. auto.
   - intros e F. rewrite F. reflexivity.
   - intros F. rewrite F. reflexivity.
 Qed.
 
-End P4.
+End P4m.
